@@ -314,6 +314,40 @@ pub mod json_hooks {
                 _ => return Err("unknown kind".to_string()),
             }))
         }
+        /// The pickle protocol of the Python-visible class, step by step, through the interpreter (H4):
+        /// `state = obj.__getstate__()`, `args = obj.__getnewargs__()`, `new = type(obj)(*args)`,
+        /// `new.__setstate__(state)`.  Returns the bytes `__getstate__` produced and the rebuilt object.
+        pub fn pickle_roundtrip(&self) -> Result<(Vec<u8>, Tagged), String> {
+            use pyo3::prelude::*;
+            use pyo3::types::{PyBytes, PyTuple};
+            macro_rules! rt {
+                ($py:expr, $v:expr, $T:ty, $variant:ident) => {{
+                    let obj = Py::new($py, $v.clone()).map_err(es)?;
+                    let b = obj.bind($py);
+                    let state = b.call_method0("__getstate__").map_err(es)?;
+                    let bytes: Vec<u8> =
+                        state.downcast::<PyBytes>().map_err(es)?.as_bytes().to_vec();
+                    let args = b.call_method0("__getnewargs__").map_err(es)?;
+                    let args = args.downcast::<PyTuple>().map_err(es)?;
+                    let fresh = b.get_type().call1(args.clone()).map_err(es)?;
+                    fresh.call_method1("__setstate__", (state,)).map_err(es)?;
+                    let back: $T = fresh.extract().map_err(es)?;
+                    Ok((bytes, Tagged(DeserializedObj::$variant(back))))
+                }};
+            }
+            Python::with_gil(|py| match &self.0 {
+                DeserializedObj::Dual(v) => rt!(py, v, Dual, Dual),
+                DeserializedObj::Dual2(v) => rt!(py, v, Dual2, Dual2),
+                DeserializedObj::Cal(v) => rt!(py, v, Cal, Cal),
+                DeserializedObj::UnionCal(v) => rt!(py, v, UnionCal, UnionCal),
+                DeserializedObj::NamedCal(v) => rt!(py, v, NamedCal, NamedCal),
+                DeserializedObj::FXRates(v) => rt!(py, v, FXRates, FXRates),
+                DeserializedObj::Curve(v) => rt!(py, v, Curve, Curve),
+                DeserializedObj::PPSplineF64(v) => rt!(py, v, PPSplineF64, PPSplineF64),
+                DeserializedObj::PPSplineDual(v) => rt!(py, v, PPSplineDual, PPSplineDual),
+                DeserializedObj::PPSplineDual2(v) => rt!(py, v, PPSplineDual2, PPSplineDual2),
+            })
+        }
         /// The payload type's own `PartialEq` (`Curve.__eq__` compares the `inner` fields);
         /// `false` when the kinds differ.
         pub fn same(&self, other: &Tagged) -> bool {
